@@ -164,10 +164,19 @@ def write_crate(ws, cname, progs, extra):
                 + '\n'.join(arms) + '\n        _ => false,\n    });\n}\n')
 
 
-def run(cmd, cwd=None, env=None, timeout=None):
+def _limit_memory(max_gb):
+    def f():
+        import resource
+        lim = int(max_gb * (1 << 30))
+        resource.setrlimit(resource.RLIMIT_AS, (lim, lim))
+    return f
+
+
+def run(cmd, cwd=None, env=None, timeout=None, max_gb=None):
     t0 = time.time()
     try:
-        p = subprocess.run(cmd, cwd=cwd, env=env, stdout=subprocess.PIPE, stderr=subprocess.STDOUT, timeout=timeout)
+        p = subprocess.run(cmd, cwd=cwd, env=env, stdout=subprocess.PIPE, stderr=subprocess.STDOUT, timeout=timeout,
+                           preexec_fn=_limit_memory(max_gb) if max_gb else None)
         return p.returncode, p.stdout.decode('utf-8', 'replace'), time.time() - t0
     except subprocess.TimeoutExpired as e:
         out = e.stdout.decode('utf-8', 'replace') if e.stdout else ''
@@ -414,11 +423,12 @@ def run_crate_cases(ws, crate, cases, workdir, timeout=120, target_dir=None):
     pending = list(cases)
     traces = {}
     hangs = []
-    for _ in range(6):
+    for attempt in range(4):
         if not pending:
             break
         write_cases(cf, pending)
-        rc, out, secs = run([exe, cf], timeout=timeout)
+        # a looping lexer is an outcome, not a reason to wait: the whole crate normally runs in about a second
+        rc, out, secs = run([exe, cf], timeout=min(timeout, 40 if attempt == 0 else 15), max_gb=6)
         got = parse_traces(out)
         for k, v in got.items():
             if v['complete']:
